@@ -403,7 +403,11 @@ func c01ChurnText(r *hx.Rng) string {
 	}
 	bench := func() {
 		u := []string{"ns/op", "MB/s", "B/op", "widgets", "sec/op"}
-		fmt.Fprintf(&sb, "Benchmark%s %d %v %s", []string{"X", "Y/n=1-4", "Z"}[r.Intn(3)], r.Range(1, 1000), float64(r.Intn(10000))/8, u[r.Intn(len(u))])
+		name := []string{"X", "Y/n=1-4", "Z"}[r.Intn(3)]
+		if r.Chance(0.15) {
+			name = c01KeywordNames[r.Intn(len(c01KeywordNames))] // BenchmarkBenchmark..., BenchmarkUnit, Benchmarkok ...
+		}
+		fmt.Fprintf(&sb, "Benchmark%s %d %v %s", name, r.Range(1, 1000), float64(r.Intn(10000))/8, u[r.Intn(len(u))])
 		if r.Chance(0.4) {
 			fmt.Fprintf(&sb, " %v %s", float64(r.Intn(1000)), u[r.Intn(len(u))])
 		}
